@@ -172,7 +172,7 @@ def batch(check: str, tier: str) -> int:
     soft = getattr(mod, "WALL_CAP", {"quick": 420.0, "thorough": 3600.0})[tier]
     if not deadline:
         deadline = t0 + soft  # safety: stop starting runs, never kill a good batch
-    hard_deadline = deadline + 600.0
+    hard_deadline = deadline + 1200.0
 
     specs = []
     for w in range(W):
@@ -209,12 +209,19 @@ def batch(check: str, tier: str) -> int:
         # ---- determinism verdict
         det_checked = det_mismatch = 0
         det_bad: list[int] = []
+        det_detail: list[str] = []
         for i, m in det_runs.items():
             if i in main_runs:
+                if m.get("verdict") == "harness_error" and main_runs[i].get("verdict") != "harness_error":
+                    # the repeat itself broke (killed at the per-run wall limit on an overloaded
+                    # machine ...): a harness error of its own, not a statement about determinism
+                    errors.append(f"determinism repeat of run {i}: {str(m.get('trace', ''))[-300:]}")
+                    continue
                 det_checked += 1
                 if m.get("digest") != main_runs[i].get("digest") or m.get("verdict") != main_runs[i].get("verdict"):
                     det_mismatch += 1
                     det_bad.append(i)
+                    det_detail.append(f"run {i}: {main_runs[i].get('verdict')}/{main_runs[i].get('digest')} vs {m.get('verdict')}/{m.get('digest')}")
 
         # ---- aggregate
         counters: dict[str, Any] = {}
@@ -326,7 +333,7 @@ def batch(check: str, tier: str) -> int:
             print("HARNESS-ERROR violation(s) did not replay: " + " | ".join(replay_failures)[:3000])
             return 2
         if det_mismatch:
-            print(f"HARNESS-ERROR determinism self-test: {det_mismatch}/{det_checked} repeated runs differ (indices {det_bad[:10]})")
+            print(f"HARNESS-ERROR determinism self-test: {det_mismatch}/{det_checked} repeated runs differ (indices {det_bad[:10]}; {'; '.join(det_detail[:3])})")
             return 2
         if errors:
             print("HARNESS-ERROR " + " || ".join(errors)[:4000])
